@@ -34,6 +34,7 @@ import subprocess
 import sys
 import tempfile
 import time
+import uuid
 from dataclasses import dataclass, field
 from pathlib import Path
 from typing import Callable, Iterable, Optional
@@ -132,7 +133,7 @@ def _compile_obj(src: Path, flags: list[str], key_extra: str) -> Path:
     if obj.exists():
         return obj
     obj.parent.mkdir(parents=True, exist_ok=True)
-    tmp = obj.with_suffix(f".{os.getpid()}.tmp.o")
+    tmp = obj.with_suffix(f".{os.getpid()}.{uuid.uuid4().hex[:8]}.tmp.o")
     cmd = [CXX, *flags, "-c", str(src), "-o", str(tmp)]
     r = subprocess.run(cmd, capture_output=True, text=True)
     if r.returncode != 0:
@@ -170,7 +171,7 @@ def build_harness(name: str, main: str, repo_sources: Iterable[str] = (), *, inc
     if exe.exists():
         return exe
     exe.parent.mkdir(parents=True, exist_ok=True)
-    tmp = exe.with_suffix(f".{os.getpid()}.tmp")
+    tmp = exe.with_suffix(f".{os.getpid()}.{uuid.uuid4().hex[:8]}.tmp")
     sanit = [f for f in flags if f.startswith("-fsanitize") or f.startswith("-fno-sanitize")]
     r = subprocess.run([CXX, *sanit, "-o", str(tmp), *map(str, objs), *libs], capture_output=True, text=True)
     if r.returncode != 0:
